@@ -1,4 +1,5 @@
 """C08 - a rule that fails to evaluate is skipped; it never aborts classification."""
+from engine.ob import use_engine
 from engine.ob import Obligation, post, reset_tally_caches, inject, inject_tree
 
 LEVEL = 'other'
@@ -224,7 +225,7 @@ def failing_transform():
         from tally import merchant_utils
         reset_tally_caches()
         eng = tmpl.load(T_FAILING_TRANSFORMS, {'@P1': s1})
-        merchant_utils._cached_engine = eng
+        use_engine(eng)
         real = merchant_utils.extract_merchant_name
         merchant_utils.extract_merchant_name = lambda _d: 'FALLBACK'
         try:
@@ -316,7 +317,7 @@ def lazy_field():
         from tally import merchant_utils
         reset_tally_caches()
         eng = tmpl.load(T_LAZY_FIELD, {'@P1': s1, 9001: n1})
-        merchant_utils._cached_engine = eng
+        use_engine(eng)
         rows = {'orders': [{'amount': r1, 'item': 'book', 'date': date(2024, 1, 1)}, {'amount': amount, 'item': 'pending', 'date': 'Pending'}]}
         real = merchant_utils.extract_merchant_name
         merchant_utils.extract_merchant_name = lambda d: 'FALLBACK'
